@@ -92,7 +92,7 @@ def check_equivalent(ctx, h, p, L, w=None, where=""):
 
 @st.composite
 def profile(draw, allow_zero=False, max_n=60):
-    N = draw(st.integers(2, max_n))
+    N = draw(st.one_of(st.integers(2, max_n), st.integers(1, 3)))          # a single-layer "profile" is a profile
     kind = draw(st.sampled_from(["linspace", "arange", "irregular", "clustered"]))
     lo, hi = draw(st.sampled_from(RANGES))
     seed = draw(st.integers(0, 2**32 - 1))
@@ -108,7 +108,7 @@ def profile(draw, allow_zero=False, max_n=60):
         c = rng.uniform(lo, hi, size=max(1, N // 6))
         h = np.sort(np.abs(rng.choice(c, size=N) + rng.normal(scale=(hi - lo) * 1e-3, size=N)))
     h = np.unique(h)
-    while len(h) < 2:
+    while len(h) < min(N, 2):
         h = np.append(h, h[-1] + (hi - lo) * 0.1 + 1e-6)
     if draw(st.integers(0, 5)) == 0 and len(h) >= 3:
         # two layers tabulated at exactly the same height (e.g. two wind components) are still two layers
@@ -128,7 +128,7 @@ def profile(draw, allow_zero=False, max_n=60):
         w = np.maximum(np.round(w), 1).astype(wdt)            # whole-m/s wind tables are valid input
     else:
         w = w.astype(wdt)
-    if draw(st.integers(0, 4)) == 0 and float(np.min(np.diff(h))) > 2.0:
+    if draw(st.integers(0, 4)) == 0 and (len(h) < 2 or float(np.min(np.diff(h))) > 2.0):
         h = np.round(h).astype("int64")                        # whole-metre height tables too
     return {"h": h, "p": p, "w": w, "L": L, "kind": kind}
 
